@@ -146,3 +146,44 @@ def core_of(ctx, api_name, marker):
         if any(h.name == marker for s in ctx.cg.sites(g) for h in s.callees):
             return g
     return f
+
+
+def check_history_independence(ctx, rep, RULE):
+    """No value that depends on the constraint table (data flow, or control flow inside the storing function) is stored
+    into module state other than the table itself: caches keyed by symbol stay functions of the symbol alone, so what a
+    symbol means cannot depend on which tables were in force earlier.  Decided per storing function with a local taint
+    analysis whose sources are reads of the table and results of functions that (transitively) read it."""
+    from sa.effects import Effects, WRITE_OPS
+    from sa.taint import Taint
+    from rules.C19 import _import_time_only
+    eff = Effects(ctx)
+    pt = ctx.pt
+    setter, table_vars = eff.table_vars()
+    readers = []
+    for f in ctx.db.funcs.values():
+        reads = eff.module_var_reads(f)
+        if any(tv in reads for tv in table_vars):
+            readers.append(f)
+    writers = {}
+    for r in pt.recs.values():
+        if r.op in WRITE_OPS and not r.scope.startswith("mod:") and r.scope != setter.qual:
+            if any(eff.is_shared_target(t) for t in r.targets) and not _import_time_only(ctx, r.scope):
+                writers.setdefault(r.scope, []).append(r)
+    n = 0
+    for q, recs in sorted(writers.items()):
+        F = ctx.db.funcs[q]
+        sources = [("glob", m, nm) for m, nm in table_vars] + [("ret", g.qual) for g in readers if g is not F]
+        T = Taint(ctx, sources, [q], interproc_pc=False)
+        bad = [l for l in T.t if l[0] == "glob" and (l[1], l[2]) not in table_vars]
+        n += 1
+        for l in sorted(bad):
+            rep.ob(RULE, False, F.node, F, construct="store into module state %s.%s" % (l[1], l[2]),
+                   witness="table-dependent information is stored in %s.%s, which set_semantic_constraints never resets: %s"
+                   % (l[1], l[2], T.explain(l)), key="table-dependent-store/%s/%s" % (F.name, l[2]), nontrivial=True)
+        if not bad:
+            rep.ob(RULE, True, F.node, F, construct="stores of %s into module state (%s)" % (F.name, "; ".join(sorted({r.detail for r in recs}))[:80]),
+                   how="neither the stored value nor the storing branch depends on the constraint table",
+                   key="table-dependent-store/%s/none" % F.name, nontrivial=True)
+    if not n:
+        rep.ob(RULE, True, None, None, loc="selfies/", construct="stores to module state after import", how="none outside the setter",
+               key="table-dependent-store/no-writers")
